@@ -232,7 +232,7 @@ def check(ctx):
             ctx.inst('R5', fx, 'channel:' + var, core is not None and 'int(%s)' % chan(col) in norm(core), '%s is computed from the %s level' % (var, col))
         word = asg.get('tmp') if 'tmp' in asg else asg.get('led')
         ctx.need(word is not None, '%s: RGB565 word not found' % qual)
-        wb = B_.evaluate(word, sc, {'int(R5)': 'r', 'int(G6)': 'g', 'int(B5)': 'b'}, {'r': 5, 'g': 6, 'b': 5})
+        wb = B_.evaluate(word, sc, {'int(R5)': 'r', 'int(G6)': 'g', 'int(B5)': 'b', 'R5': 'r', 'G6': 'g', 'B5': 'b'}, {'r': 5, 'g': 6, 'b': 5})      # with or without the int() around values that are ints already
         ctx.inst('R5', fx, 'fields', B_.is_input_field(wb, 11, 5, 'r') and B_.is_input_field(wb, 5, 6, 'g') and B_.is_input_field(wb, 0, 5, 'b') and all(b == 0 for b in wb[16:]),
                  'RGB565 word must be R<<11 | G<<5 | B; bits %s' % B_.describe(wb, 16))
         wn = 'tmp' if 'tmp' in asg else 'led'
